@@ -60,3 +60,42 @@ Theorem C17_switch : forall p p' t f t', TInv t -> execute t f = Ok t' -> holds_
 Proof. exact C17_switch_holds. Qed.
 Check C17_switch : forall p p' t f t', TInv t -> execute t f = Ok t' -> holds_C17_switch (mkVt p t) f (mkVt p' t') = true.
 Print Assumptions C17_switch.
+
+From Avt Require Import Proofs.C17Run.
+(** run level (Proofs/C17Run.v): "the most recent save on the same screen, regardless of what was executed in between" *)
+(** any of the four save spellings; then ANY run of control functions (moves, prints, SGR, mode and margin changes, excursions to the other screen through 47 / 1047 / 1049 with their own saves) that contains no save and no DECSTR while the saving screen is shown and no RIS (`no_save_reset_on`, an executable check over the run that tracks the shown screen); then any restore spelling on the same screen: exactly the column (the last column if the wrap was pending), row, pen, origin mode and auto-wrap mode in force at the save *)
+Theorem C17_round_trip : forall t fsave t1 fs t2 frest t3, TInv t -> is_save fsave -> execute t fsave = Ok t1 -> rrun (map RF fs) t1 = Ok t2 -> no_save_reset_on (active t) (active t1) (map RF fs) = true -> active t2 = active t -> is_restore frest -> execute t2 frest = Ok t3 -> cur_col t3 = viscol t /\ cur_row t3 = cur_row t /\ tpen t3 = tpen t /\ org t3 = org t /\ awm t3 = awm t /\ pend t3 = false /\ cols t3 = cols t /\ rows t3 = rows t.
+Proof. exact C17_roundtrip. Qed.
+Check C17_round_trip : forall t fsave t1 fs t2 frest t3, TInv t -> is_save fsave -> execute t fsave = Ok t1 -> rrun (map RF fs) t1 = Ok t2 -> no_save_reset_on (active t) (active t1) (map RF fs) = true -> active t2 = active t -> is_restore frest -> execute t2 frest = Ok t3 -> cur_col t3 = viscol t /\ cur_row t3 = cur_row t /\ tpen t3 = tpen t /\ org t3 = org t /\ awm t3 = awm t /\ pend t3 = false /\ cols t3 = cols t /\ rows t3 = rows t.
+Print Assumptions C17_round_trip.
+
+(** the same with resizes in the run: the restored position is the saved one clamped through the sizes the terminal went through (`run_ctx`), inside the screen, never beyond the saved position; pen and modes exact ("clamped into the CURRENT size" would be false: C17_roundtrip_current_size_refuted - 20 columns, saved at 15, resized to 10 and back to 20 restores column 9) *)
+Theorem C17_round_trip_resized : forall t fsave t1 os t2 frest t3, TInv t -> is_save fsave -> execute t fsave = Ok t1 -> forallb rop_ok os = true -> rrun os t1 = Ok t2 -> no_save_reset_on (active t) (active t1) os = true -> active t2 = active t -> is_restore frest -> execute t2 frest = Ok t3 -> let e := run_ctx (active t) (active t1) (cols t) (rows t) (spec_saved_now t) os in cur_col t3 = sc_col e /\ cur_row t3 = sc_row e /\ tpen t3 = tpen t /\ org t3 = org t /\ awm t3 = awm t /\ pend t3 = false /\ cur_col t3 < cols t3 /\ cur_row t3 < rows t3 /\ cur_col t3 <= viscol t /\ cur_row t3 <= cur_row t.
+Proof. exact C17_roundtrip_run. Qed.
+Check C17_round_trip_resized : forall t fsave t1 os t2 frest t3, TInv t -> is_save fsave -> execute t fsave = Ok t1 -> forallb rop_ok os = true -> rrun os t1 = Ok t2 -> no_save_reset_on (active t) (active t1) os = true -> active t2 = active t -> is_restore frest -> execute t2 frest = Ok t3 -> let e := run_ctx (active t) (active t1) (cols t) (rows t) (spec_saved_now t) os in cur_col t3 = sc_col e /\ cur_row t3 = sc_row e /\ tpen t3 = tpen t /\ org t3 = org t /\ awm t3 = awm t /\ pend t3 = false /\ cur_col t3 < cols t3 /\ cur_row t3 < rows t3 /\ cur_col t3 <= viscol t /\ cur_row t3 <= cur_row t.
+Print Assumptions C17_round_trip_resized.
+
+(** a whole ?1049h ... ?1049l excursion *)
+Theorem C17_round_trip_1049 : forall t t1 fs t2 t3, TInv t -> active t = Primary -> execute t (Decset [SaveCursorAltScreenBuffer]) = Ok t1 -> rrun (map RF fs) t1 = Ok t2 -> no_save_reset_on Primary Alternate (map RF fs) = true -> execute t2 (Decrst [SaveCursorAltScreenBuffer]) = Ok t3 -> active t1 = Alternate /\ active t3 = Primary /\ cur_col t3 = viscol t /\ cur_row t3 = cur_row t /\ tpen t3 = tpen t /\ org t3 = org t /\ awm t3 = awm t /\ pend t3 = false.
+Proof. exact C17_roundtrip_1049. Qed.
+Check C17_round_trip_1049 : forall t t1 fs t2 t3, TInv t -> active t = Primary -> execute t (Decset [SaveCursorAltScreenBuffer]) = Ok t1 -> rrun (map RF fs) t1 = Ok t2 -> no_save_reset_on Primary Alternate (map RF fs) = true -> execute t2 (Decrst [SaveCursorAltScreenBuffer]) = Ok t3 -> active t1 = Alternate /\ active t3 = Primary /\ cur_col t3 = viscol t /\ cur_row t3 = cur_row t /\ tpen t3 = tpen t /\ org t3 = org t /\ awm t3 = awm t /\ pend t3 = false.
+Print Assumptions C17_round_trip_1049.
+
+(** ?1049l and BOTH screens' saved contexts *)
+Theorem C17_1049_leave : forall t t', TInv t -> execute t (Decrst [SaveCursorAltScreenBuffer]) = Ok t' -> active t' = Primary /\ cols t' = cols t /\ rows t' = rows t /\ saved_of t' Primary = clamp_ctx (saved_of t Primary) (cols t) (rows t) /\ saved_of t' Alternate = saved_of t Alternate /\ (active t = Primary -> saved_of t' Primary = saved_of t Primary).
+Proof. exact C17_1049l. Qed.
+Check C17_1049_leave : forall t t', TInv t -> execute t (Decrst [SaveCursorAltScreenBuffer]) = Ok t' -> active t' = Primary /\ cols t' = cols t /\ rows t' = rows t /\ saved_of t' Primary = clamp_ctx (saved_of t Primary) (cols t) (rows t) /\ saved_of t' Alternate = saved_of t Alternate /\ (active t = Primary -> saved_of t' Primary = saved_of t Primary).
+Print Assumptions C17_1049_leave.
+
+(** "or the power-on defaults if nothing was saved": any run from a fresh terminal without a save on the screen shown at the end *)
+Theorem C17_unsaved : forall c r l s os t2 f t3, 1 <= c -> 1 <= r -> forallb rop_ok os = true -> rrun os (vterm (vt_new c r l)) = Ok t2 -> no_save_on s Primary os = true -> active t2 = s -> is_restore f -> execute t2 f = Ok t3 -> cur_col t3 = 0 /\ cur_row t3 = 0 /\ tpen t3 = default_pen /\ org t3 = false /\ awm t3 = true /\ pend t3 = false.
+Proof. exact C17_restore_unsaved_new. Qed.
+Check C17_unsaved : forall c r l s os t2 f t3, 1 <= c -> 1 <= r -> forallb rop_ok os = true -> rrun os (vterm (vt_new c r l)) = Ok t2 -> no_save_on s Primary os = true -> active t2 = s -> is_restore f -> execute t2 f = Ok t3 -> cur_col t3 = 0 /\ cur_row t3 = 0 /\ tpen t3 = default_pen /\ org t3 = false /\ awm t3 = true /\ pend t3 = false.
+Print Assumptions C17_unsaved.
+
+(** KNOWN DEVIATION from the literal quantifier (KF-C17-1): a soft reset between save and restore RESETS the saved context of the shown screen (DEC STD 070 / xterm behaviour), so the restore yields the power-on defaults *)
+Theorem C17_decstr : forall t fsave t1 t2 frest t3, match fsave with Decsc | Scosc | Decset [SaveCursor] => True | _ => False end -> execute t fsave = Ok t1 -> execute t1 Decstr = Ok t2 -> is_restore frest -> execute t2 frest = Ok t3 -> cur_col t3 = 0 /\ cur_row t3 = 0 /\ tpen t3 = default_pen /\ org t3 = false /\ awm t3 = true /\ pend t3 = false.
+Proof. exact C17_decstr_resets_saved. Qed.
+Check C17_decstr : forall t fsave t1 t2 frest t3, match fsave with Decsc | Scosc | Decset [SaveCursor] => True | _ => False end -> execute t fsave = Ok t1 -> execute t1 Decstr = Ok t2 -> is_restore frest -> execute t2 frest = Ok t3 -> cur_col t3 = 0 /\ cur_row t3 = 0 /\ tpen t3 = default_pen /\ org t3 = false /\ awm t3 = true /\ pend t3 = false.
+Print Assumptions C17_decstr.
+
